@@ -35,6 +35,7 @@ def pattern_owner(world):
 class RegistryUnit:
     kind = "data"
     name = "rule.registry"
+    qualnames = ["rule.rule", "rule.regex_match", "rule.predicate", "rule.dimension", "loader.load_default_scorer"]
     props = {"C19", "C11"}
     cost = 1
 
